@@ -24,11 +24,11 @@ import (
 	"sync"
 	"sync/atomic"
 	"time"
+	"verifharness/minex"
 
 	"go.sia.tech/core/gateway"
 	proto4 "go.sia.tech/core/rhp/v4"
 	"go.sia.tech/core/types"
-	"go.sia.tech/coreutils"
 	"go.sia.tech/coreutils/chain"
 	rhp4 "go.sia.tech/coreutils/rhp/v4"
 	"go.sia.tech/coreutils/rhp/v4/siamux"
@@ -1138,7 +1138,7 @@ func scenSyncClose(name string, rng *vh.RNG, r *vh.Run) {
 		ahead = append(ahead, nd)
 		if i == 0 {
 			for k := 0; k < nBlocks; k++ {
-				b, ok := coreutils.MineBlock(nd.cm, types.VoidAddress, 10*time.Second)
+				b, ok := minex.MineBlock(nd.cm, types.VoidAddress)
 				if !ok {
 					orc(c, "setup", "mining failed")
 					return
